@@ -20,13 +20,11 @@ pub struct BlockedClient {
     pub op_type: BlockingOp,
 }
 
-/// Wake-up request for blocked clients
+/// Wake-up request: a key that clients are blocked on has received data
 #[derive(Debug)]
 pub struct WakeupRequest {
-    pub conn_id: u64,
     pub db: DatabaseIndex,
     pub key: Vec<u8>,
-    pub op_type: BlockingOp,
 }
 
 /// Per-database blocking registry
@@ -76,6 +74,16 @@ impl BlockingRegistry {
     /// Check if any clients are blocked on a key
     pub fn has_blocked_clients(&self, key: &[u8]) -> bool {
         self.blocked_keys.contains(key)
+    }
+    
+    /// The first waiting client for a key, left in place
+    pub fn first_waiter(&self, key: &[u8]) -> Option<BlockedClient> {
+        self.blocked_on_key.get(key).and_then(|clients| clients.front().cloned())
+    }
+    
+    /// Keys that have waiting clients
+    pub fn blocked_keys(&self) -> Vec<Vec<u8>> {
+        self.blocked_keys.iter().cloned().collect()
     }
     
     /// Pop the first waiting client for a key
@@ -204,24 +212,36 @@ impl BlockingManager {
             return;
         }
         
-        // Only wake up one client at a time per key to prevent deadlock
-        // When an item is pushed, only the first waiting client should be notified
-        let client = {
-            let mut registry = self.registries[db].write().unwrap();
-            match registry.pop_first_waiter(key) {
-                Some(c) => c,
-                None => return, // No clients waiting on this key
-            }
-        };
+        // Waiters stay registered until they are actually served: the event loop serves them
+        // first-blocked-first for as long as the key holds data (see Server::wake_client)
+        if !self.has_blocked_clients(db, key) {
+            return; // No clients waiting on this key
+        }
         
-        // Send single wake-up request
-        // Additional items pushed will wake additional clients one by one
         self.wake_queue.push(WakeupRequest {
-            conn_id: client.conn_id,
             db,
             key: key.to_vec(),
-            op_type: client.op_type,
         });
+    }
+    
+    /// The first client waiting on a key, if any (it stays registered)
+    pub fn first_waiter(&self, db: DatabaseIndex, key: &[u8]) -> Option<BlockedClient> {
+        if db >= self.registries.len() {
+            return None;
+        }
+        
+        let registry = self.registries[db].read().unwrap();
+        registry.first_waiter(key)
+    }
+    
+    /// Keys of a database that have waiting clients
+    pub fn blocked_keys(&self, db: DatabaseIndex) -> Vec<Vec<u8>> {
+        if db >= self.registries.len() {
+            return Vec::new();
+        }
+        
+        let registry = self.registries[db].read().unwrap();
+        registry.blocked_keys()
     }
     
     /// Process wake-up queue (called from main server loop)
